@@ -10,6 +10,7 @@ def run(ctx):
     T(ctx, 'C04_drop', pres=0, drop=0, defs=defs, extra_defs=['DROPALL'])        # each of the six mandatory tokens left out (case split, one concrete run each)
     for drop in range(1, 7): T(ctx, 'C04_drop%d' % drop, pres=0, drop=drop, defs=defs, tier='thorough')
     T(ctx, 'C04_group2', pres=0, ng=2, gpres=3, defs=defs, extra_defs=['GMENUMASK=0x1804'])     # group slots: 372, 385, 141
+    T(ctx, 'C04_group3_elems', pres=0, ng=3, gpres=7, defs=defs, extra_defs=['GMENUMASK=0x1800'])   # three group tokens from {372, 385}: later elements must start with the first field
     T(ctx, 'C04_group2_full', pres=0, ng=2, gpres=3, defs=defs, tier='thorough', timeout=2400)
     # thorough: pairs and triples of symbolic tokens, a dropped mandatory token next to a symbolic one, three group tokens, and the real byte tokenizer
     for pres in (3, 5, 6): T(ctx, 'C04_tok_x%d' % pres, pres=pres, defs=defs, tier='thorough', timeout=2400)
